@@ -156,15 +156,24 @@ class Repo(object):
         self._strategies = None
         self.consulted = set()
         self.renamed = {}
+        self.adopted = {}
         self._alpha_normalise()
 
     def _alpha_normalise(self):
         """Map renamed local names back to the names of the reference snapshot (see sa/alpha.py)."""
         if os.environ.get("VERIF_NO_ALPHA"):
             return
-        from . import alpha
+        from . import alpha, equiv
         refdir = os.path.join(VERIF, "reference", PKG)
         ref = alpha.load_reference(refdir)
+        hier_cur = equiv.class_hierarchy([m.tree for m in self.modules.values()])
+        hier_ref = equiv.class_hierarchy(list(ref.values()))
+        for name, mod in self.modules.items():
+            if name in ref and not os.environ.get("VERIF_NO_EQUIV"):
+                got = equiv.adopt_reference(mod.tree, ref[name], hier_cur, hier_ref)
+                if got:
+                    self.adopted[name] = got
+                    set_parents(mod.tree)
         for name, mod in self.modules.items():
             if name in ref:
                 applied = alpha.normalise_module(mod.tree, ref[name])
@@ -511,6 +520,8 @@ def finish(chk, t0, seed, error=None, extra_cov=None, out=sys.stdout, write=True
         "source_digest": chk.repo.digest() if chk.repo else "",
         "locals_renamed_to_reference": {m: {q: d for q, d in v.items()} for m, v in chk.repo.renamed.items()
                                         if m in chk.repo.consulted} if chk.repo else {},
+        "units_proved_equivalent_to_reference": {m: v for m, v in chk.repo.adopted.items()
+                                                 if m in chk.repo.consulted} if chk.repo else {},
         "known_findings_matched": [o.key for o in known_hit],
         "exhaustive": False,
         "trusted_base": ["CPython ast", "PEP 479 / data-model semantics of the interpreter",
